@@ -31,7 +31,7 @@ ASSUMPTIONS = ['bit flips inside a stored value may change that value without ma
                'trials only "no exception, next save complete and loadable" is judged, not the restored values',
                'the pickle format is the one produced by the running interpreter']
 DECIDING_HOOKS = ['Context.persist', 'Context.restore']
-DECIDING_COUNTERS = {'fault_points': 1000, 'second_document_shared_labels': 5, 'cross_document_refs': 5, 'compiled_pairs': 5}
+DECIDING_COUNTERS = {'fault_points': 1000, 'second_document_shared_labels': 5, 'cross_document_refs': 5, 'compiled_pairs': 5, 'second_renderer_runs': 3}
 
 
 def budget(tier):
@@ -416,6 +416,40 @@ def run_round(case, st):
                     return {'nontrivial': True}
             finally:
                 out3.cleanup()
+        # the same parsed document rendered by a second, different renderer: its section of the file names the files *it* produced
+        if sec:
+            import importlib
+            tdir = os.path.join(out.outdir, 'as-text')
+            os.makedirs(tdir, exist_ok=True)
+            cwd0 = os.getcwd()
+            try:
+                os.chdir(tdir)
+                out.doc.config['general']['renderer'] = 'Text'
+                importlib.import_module('plasTeX.Renderers.Text').Renderer().render(out.doc)
+            except common.CaseTimeout:
+                raise
+            except Exception as e:
+                st.violation('second-renderer/render-raises-' + type(e).__name__, case, traceback.format_exc()[-600:])
+                return {'nontrivial': True}
+            finally:
+                os.chdir(cwd0)
+                out.doc.config['general']['renderer'] = rn
+                common.plastex_reset()
+            d2 = pickle.load(open(paux, 'rb'))
+            produced = set(os.listdir(tdir))
+            st.counters['second_renderer_runs'] += 1
+            if d2.get(rn) != sec:
+                st.violation('second-renderer/first-section-changed', case, 'rendering with Text changed the %s section of the file' % rn)
+                return {'nontrivial': True}
+            for name, e in sorted(d2.get('Text', {}).items()):
+                f = e.get('url', '').split('#')[0]
+                if f and f not in produced:
+                    st.violation('second-renderer/saved-url', case, 'label %s saved by the Text renderer with url %r; the Text renderer produced %r' % (name, e.get('url'), sorted(produced)[:6]))
+                    return {'nontrivial': True}
+            if set(d2.get('Text', {})) != set(sec):
+                st.violation('second-renderer/saved-label-set', case, 'Text section holds %r, document labels %r' % (sorted(d2.get('Text', {})), sorted(sec)))
+                return {'nontrivial': True}
+            sec_after_text = d2
         # saving with the other renderer keeps this section intact
         ctx3 = fresh_ctx()
         ctx3.persistentLabels = nodes_for(ctx3, {'zz:1': {'id': 'zz:1', 'ref': '9', 'url': 'x.html'}})
